@@ -28,7 +28,7 @@ PICK = {
  'C12': ['tight_avx', 'tight_sse', 'tight_v256', 'binary2_avx', 'reduce2_avx'],
  'C13': ['th_transpose', 'th_add', 'thd_transpose'],
  # the library's own growable buffer (nmtools_list in NMTOOLS_DISABLE_STL builds) and bounded vector: every access inside the heap block / the logical size over 2-step histories
- 'C19': ['hist_vector_ops2', 'copy_independent', 'hist_static_vector'],
+ 'C19': ['hist_vector_ops2', 'copy_independent', 'copy_then_grow', 'hist_static_vector'],
 }
 PICK_ALL_QUICK = {'C19'}   # properties whose picked harnesses run ALL their quick configurations here (operation pairs are per-query constants)
 KERNELS = {}
